@@ -23,6 +23,8 @@ def configs():
     for n in range(2, 41, 2):
         c['luhn/%d' % n] = dict(mod='luhn', kw={'alphabet': A40[:n]}, pay=A40[:n], chk=A40[:n], swaps='luhn', direction='R', nchk=1)
     c['luhn/hex'] = dict(mod='luhn', kw={'alphabet': '0123456789abcdef'}, pay='0123456789abcdef', chk='0123456789abcdef', swaps='luhn', direction='R', nchk=1)
+    for nm, al in (('abcdef', 'abcdef'), ('1-0', '1234567890'), ('A-Z', 'ABCDEFGHIJKLMNOPQRSTUVWXYZ'), ('base32', 'ABCDEFGHIJKLMNOPQRSTUVWXYZ234567')):
+        c['luhn/' + nm] = dict(mod='luhn', kw={'alphabet': al}, pay=al, chk=al, swaps='luhn', direction='R', nchk=1)
     c['luhn/default'] = dict(mod='luhn', kw={}, pay='0123456789', chk='0123456789', swaps='luhn', direction='R', nchk=1)
     c['verhoeff'] = dict(mod='verhoeff', kw={}, pay='0123456789', chk='0123456789', swaps='all', direction='R', nchk=1)
     c['damm'] = dict(mod='damm', kw={}, pay='0123456789', chk='0123456789', swaps='all', direction='L', nchk=1)
